@@ -240,8 +240,16 @@ func admissible(toks []tok, vals []string, cs bool) (path string, ok bool) {
 	for j, t := range toks {
 		if t.Kind != 0 && j+1 < len(toks) {
 			L := fold(toks[j+1].Lit)
-			if strings.Count(fp, L) != strings.Count(fs, L) {
+			if countOverlap(fp, L) != countOverlap(fs, L) {
 				return path, false
+			}
+			// where the pattern makes the literal's trailing slash optional (end of the pattern, or in front of an optional
+			// parameter) the literal has a second spelling without that slash; it must not occur additionally either
+			if len(L) > 1 && strings.HasSuffix(L, "/") && (j+2 == len(toks) || toks[j+2].Kind == '?' || toks[j+2].Kind == '*') {
+				T := strings.TrimRight(L, "/")
+				if T != "" && countOverlap(fp, T) != countOverlap(fs, T) {
+					return path, false
+				}
 			}
 		}
 	}
@@ -425,7 +433,9 @@ func wireEsc(s string) string {
 	return strings.ReplaceAll((&url.URL{Path: s}).EscapedPath(), "%2F", "/")
 }
 
-var litTail = []string{"", "a", "ab", "abc", "x", "v1", "é", "A", ":", "*", "+", "(", "a:b", "abcd", "a_b", "0"}
+var litTail = []string{"", "a", "ab", "abc", "x", "v1", "é", "A", ":", "*", "+", "(", "a:b", "abcd", "a_b", "0",
+	// literals that contain the delimiter characters themselves (several occurrences inside one constant part)
+	"a/", "a/b", "x-y", "a.b", "b/c/", "comments/", "-", "v1.2.", "a-b-c", "x/y-z.w"}
 var valPool = []string{"x", "xy", "1", "é", "X", "a b", "a+b", "100%", "~", "日本", "x_y", "q"}
 
 func genRandom(t *rapid.T) Case {
@@ -507,3 +517,17 @@ var propRoundTrip = vk.Register(&vk.Prop[Case]{
 
 func TestRandom(t *testing.T) { propRoundTrip.Run(t) }
 func FuzzRandom(f *testing.F) { propRoundTrip.Fuzz(f) }
+
+// countOverlap counts all (also overlapping) occurrences of sub in s.
+func countOverlap(s, sub string) int {
+	if sub == "" {
+		return 0
+	}
+	n := 0
+	for i := 0; i+len(sub) <= len(s); i++ {
+		if s[i:i+len(sub)] == sub {
+			n++
+		}
+	}
+	return n
+}
